@@ -4,8 +4,11 @@ CONSTANTS Acct <- AcctCU
  BaseSet <- BaseAll
  MaxSteps = 26
  MaxSnap = 3
+ MaxRevs = 99
+ MaxOuter = 99
+ MaxInner = 99
  WithSeal = TRUE
  FreeVals = TRUE
  Dv <- NoDev
-INVARIANTS UndoMatchesSaved NoPanic RevsOK DiscardAllIsBase RedoEqualsExec NoTraceOfReverted
+INVARIANTS UndoMatchesSaved NoPanic RevsOK DiscardAllIsBase RedoEqualsExec NoTraceOfReverted SaveSucceeds
 CHECK_DEADLOCK FALSE
